@@ -33,6 +33,7 @@ TNext == /\ l <= Len(Trace) /\ l' = l + 1
                         [] E.ev = "race" -> {"C16:data-race[" \o E.pair \o "]"}
                         [] E.ev = "info" -> (IF E.ok THEN {} ELSE {"C16:camera-info-inconsistent"})
                         [] E.ev = "pipeline" -> (IF E.stored # E.expected THEN {"C16:pipeline-disturbed"} ELSE {})
+                                                  \cup (IF E.holes # <<>> THEN {"C16:pipeline-skips-frames-under-requests"} ELSE {})
                         [] E.ev = "reqpair" ->
                           (IF E.panic_with /\ ~E.panic_without THEN {"C16:request-crashes-pipeline"} ELSE {})
                           \cup (IF ~E.panic_with /\ ~E.panic_without /\
